@@ -77,7 +77,7 @@ def build(fileseed, rows, eol):
         n += 1
         f = dict(gen.NEUTRAL)
         hi_ref = None
-        if eff == "ignore" and role == "subject" and hash(fileseed) % 4 != 0 and rnd.random() < 0.3:      # (not in trees that also hold a twin file)
+        if eff == "ignore" and role == "subject" and hash(fileseed) % 4 != 0 and rnd.random() < 0.3 and not row.get("literal"):      # (not in trees that also hold a twin file)
             # an ignored statement that happens to carry a (large) reference: skipped means skipped - it must not steer the numbering
             hi_ref = 3000000000 + n
         f["bang"] = {"name_then_newline": "nl", "spaced": "both", "comment_between": "cm"}.get(spelling, "tight")
@@ -111,12 +111,28 @@ def build(fileseed, rows, eol):
             gf.newline()
         if b == "code_with_trailing_directive":
             # the nearest non-blank line above is a code line that ends in the comment: the comment is on that line all the same
-            gf.raw(ind + rnd.choice(["let n = buf.len(); ", "buf.clear(); ", "} ", "x += 1;\t"]) + dtext + eol)
+            if row.get("literal") == "opener_in_literal_before_directive" or (not row.get("literal") and rnd.random() < 0.25):
+                # ... also when a string literal in that code holds the characters of a comment opener. (Judged by a clause of its own:
+                # finding D24 - the tool looks for the comment textually.)
+                row = dict(row, literal="opener_in_literal_before_directive")
+                # (only `//`: an unclosed `/*` inside a literal hides the rest of the file from the tool - that is finding D13, C10's)
+                gf.raw(ind + rnd.choice(["let u = \"http://host/\"; ", "fetch(\"https://example.org/a//b\")?; "]) + dtext + eol)
+            else:
+                gf.raw(ind + rnd.choice(["let n = buf.len(); ", "buf.clear(); ", "} ", "x += 1;\t",
+                                         # code holding quote characters, in odd and even numbers
+                                         "let is_quote = c == '\"'; ", "let s = \"a \\\" b\"; ", "let r = r#\"say \"hi\"#; ",
+                                         "let q = ('\\'', '\"', \"'\"); ", "let b = b'\"'; "]) + dtext + eol)
         elif b not in ("directive_after", "directive_trailing"):
             gf.raw(ind + dtext + eol)
-            if b == "code_line":
+            if b == "code_line" and ((row.get("literal") or "").startswith("directive_comment_text") or (not row.get("literal") and rnd.random() < 0.12)):
+                # a string literal whose text reads like a directive comment is code, not a comment (clause of its own: finding D24)
+                word = row["directive"] if row["directive"] in ("ignore", "no-kvp") else "ignore"
+                row = dict(row, literal="directive_comment_text_in_literal:" + word)
+                gf.raw(ind + "let example = \"/* breadlog:%s */\";" % word + eol)
+            elif b == "code_line":
                 gf.raw(ind + rnd.choice(["let between = 1;", "let between = 1;", "}", "};", "loop {", ".await;", ")",
-                                         "r#\"raw\"#;", "x /* remark */ ;", "\"breadlog:ignore\";"]) + eol)
+                                         "r#\"raw\"#;", "x /* remark */ ;", "\"breadlog:ignore\";", "let s = \"// breadlog:ignore\";",
+                                         "let is_quote = c == '\"';"]) + eol)
             elif b == "attribute_line":
                 gf.raw(ind + rnd.choice(["#[allow(unused)]", "#[cfg(debug_assertions)]", "#![allow(dead_code)]", "#[inline]",
                                          "#[doc = \"breadlog:ignore\"]"]) + eol)
@@ -284,6 +300,10 @@ def work(job):
             nn = {k: v for k, v in row.items() if k in ("directive", "cstyle", "between", "blanks", "nstmts", "multiline", "mb", "spelling")}
             sig = "C14.%s|%s|expected=%s|%s|%s" % (clause, role, eff, "structured" if structured else "unstructured",
                                                   ",".join("%s=%s" % kv for kv in sorted(nn.items())))
+            if row.get("literal") and role == "subject":
+                # comment openers / directive text inside string literals on the line above: one signature per (literal class, expected
+                # effect, what was observed instead), independent of the other coordinates
+                sig = "C14.%s|subject|expected=%s|line-above:%s" % (clause, eff, row["literal"])
             res["violations"].append({"signature": sig,
                                       "detail": {"statement": it.stmt.text, "role": role, "expected_effect": eff, "row": row,
                                                  "context": gf.data()[max(0, it.start - 160):it.end + 20]},
